@@ -960,6 +960,9 @@ func (e *Eval) definitelyNonNilError(r *ssa.Return, v ssa.Value) bool {
 	if IsNilConst(v) {
 		return false
 	}
+	if _, isMI := v.(*ssa.MakeInterface); isMI {
+		return true // a concrete value stored into the error (a typed error): never the nil interface
+	}
 	pc := e.PathCond(r.Block(), nil)
 	t := e.Select(v, nil, r)
 	if t.Op == "call" {
